@@ -3,12 +3,16 @@ package yubiagent
 //vsym:pkg github.com/theparanoids/ysshra/agent/yubiagent
 //vsym:include C13/zz_stub.go
 //vsym:entry H13_addhardcert
+//vsym:entry H13_addhardcert_sequence
+//vsym:entry H13_client_exchange
 //vsym:model golang.org/x/crypto/ssh.ParsePublicKey m13ParsePublicKey
 //vsym:model golang.org/x/crypto/ssh.Unmarshal m13SSHUnmarshal
 //vsym:model golang.org/x/crypto/ssh.Marshal m13SSHMarshal
 //vsym:replay none
-//vsym:expect-cover C13.addhc.legacy C13.addhc.current C13.addhc.malformed C13.addhc.client-request
+//vsym:expect-cover C13.addhc.sequence C13.client.exchange C13.addhc.legacy C13.addhc.current C13.addhc.malformed C13.addhc.client-request
 //vsym:bound H13_addhardcert: one add-hardware-certificate frame of 1..3 bytes after the type byte (symbolic); the frame is in the legacy format (the bytes after the type byte are a key blob), in the current format (ssh.Unmarshal succeeds, its key blob parses or not), or neither; the served agent accepts or refuses; client side: AddHardCert with a symbolic 1-byte comment
+//vsym:bound H13_addhardcert_sequence: a current-format request followed by a legacy-format request on the same connection (and the reverse order)
+//vsym:bound H13_client_exchange: each extended client operation (AddHardCert, ListSlots, ReadSlot, AttestSlot, Wait, Forward): the request write and the response read on the single connection lie inside one critical section of the client's lock
 //vsym:assume ssh.ParsePublicKey / ssh.Unmarshal / ssh.Marshal are modelled: a blob parses to the key object registered for it or fails; a failed ssh.Unmarshal may leave arbitrary data in its destination (the documentation promises nothing on error); no frame is valid in both formats
 
 import (
@@ -29,8 +33,19 @@ var w13TailParses, w13UnmarshalOK, w13BlobParses bool
 var w13TailKey = &m13Key{tag: "tail"}
 var w13BlobKey = &m13Key{tag: "blob"}
 var m13Marshalled []interface{}
+var m13SeqMode bool
 
 func m13ParsePublicKey(in []byte) (ssh.PublicKey, error) {
+	if m13SeqMode {
+		// sequence harness: the legacy tail parses, the current frame's tail does not, its blob does
+		switch string(in) {
+		case string(w13Tail):
+			return w13TailKey, nil
+		case "\x07":
+			return w13BlobKey, nil
+		}
+		return nil, errors.New("model: not a key")
+	}
 	if len(in) == len(w13Tail) && vEqBytes(in, w13Tail) {
 		if w13TailParses {
 			return w13TailKey, nil
@@ -50,6 +65,16 @@ func m13SSHUnmarshal(data []byte, out interface{}) error {
 	m, ok := out.(*agentAddHardCertReq)
 	if !ok {
 		return errors.New("model: unexpected message type")
+	}
+	if m13SeqMode {
+		if len(data) == 4 && data[1] == 9 {
+			m.KeyBlob = []byte{7}
+			m.Comment = "c"
+			return nil
+		}
+		m.KeyBlob = []byte{8}
+		m.Comment = "garbage"
+		return errors.New("model: malformed message")
 	}
 	if w13UnmarshalOK {
 		m.KeyBlob = []byte{7}
@@ -155,4 +180,82 @@ func H13_addhardcert() {
 		vAssert(ok && string(r.KeyBlob) == string(w13BlobKey.Marshal()) && vEqString(r.Comment, comment), "C13.client-request-carries-blob-and-comment")
 	}
 	vReach("C13.addhc.client-request")
+}
+
+// H13_addhardcert_sequence: what one request carried must not leak into the next.
+func H13_addhardcert_sequence() {
+	w13Tail = []byte{1, 2}
+	legacyFirst := vChoose(2, "legacy-first") == 1
+	ag := &m13Agent{}
+	legacy := append([]byte{AgentMessageAddHardCert}, w13Tail...)
+	current := []byte{AgentMessageAddHardCert, 9, 9, 9}
+	var in []byte
+	frames := [][]byte{current, legacy}
+	if legacyFirst {
+		frames = [][]byte{legacy, current}
+	}
+	for _, f := range frames {
+		in = append(in, 0, 0, 0, byte(len(f)))
+		in = append(in, f...)
+	}
+	c := &m13Conn{in: in}
+	// the model's verdicts depend on the frame being decoded
+	m13SeqMode = true
+	err := ServeAgent(ag, c)
+	m13SeqMode = false
+	vAssert(err == nil, "C13.both-formats-served-on-one-connection")
+	vAssert(len(ag.keys) == 2 && len(ag.comments) == 2, "C13.one-delivery-per-request")
+	if len(ag.comments) == 2 {
+		li, ci := 1, 0
+		if legacyFirst {
+			li, ci = 0, 1
+		}
+		vAssert(ag.comments[li] == "" && ag.keys[li] == ssh.PublicKey(w13TailKey), "C13.legacy-format-carries-no-comment")
+		vAssert(ag.comments[ci] == "c" && ag.keys[ci] == ssh.PublicKey(w13BlobKey), "C13.current-format-delivers-the-comment")
+	}
+	vReach("C13.addhc.sequence")
+}
+
+// ---- client: one request/response exchange per critical section -----------------
+
+type m13LockedConn struct {
+	m20ClientConn
+}
+
+func (n *m13LockedConn) Read(p []byte) (int, error) {
+	vAccess("wr", "client.conn")
+	return n.m20ClientConn.Read(p)
+}
+func (n *m13LockedConn) Write(p []byte) (int, error) {
+	vAccess("wr", "client.conn")
+	return n.m20ClientConn.Write(p)
+}
+
+func H13_client_exchange() {
+	ops := []string{"AddHardCert", "ListSlots", "ReadSlot", "AttestSlot", "Wait", "Forward"}
+	op := ops[vChoose(len(ops), "operation")]
+	reply := []byte("\x00\x00\x00\x07SUCCESS")
+	conn := &m13LockedConn{m20ClientConn{in: reply}}
+	cl := &client{conn: conn}
+	vName(&cl.connLock, "client.connLock")
+	vTraceReset()
+	vCatch(func() {
+		switch op {
+		case "AddHardCert":
+			cl.AddHardCert(w13BlobKey, "c")
+		case "ListSlots":
+			cl.ListSlots()
+		case "ReadSlot":
+			cl.ReadSlot("9a")
+		case "AttestSlot":
+			cl.AttestSlot("9a")
+		case "Wait":
+			cl.Wait(vNondetU8("code"))
+		case "Forward":
+			cl.Forward(vNondetBytes("req", 2))
+		}
+	})
+	vTraceCheckAtomic(op, "client.connLock")
+	vTraceEmit("client." + op)
+	vReach("C13.client.exchange")
 }
